@@ -72,7 +72,7 @@ Theorem C01_leaf_tkhd_refuted : exists bs t, decode bs = Ok (t, []) /\ encode_w 
 Proof. exact tkhd_v2_refuted. Qed.
 Print Assumptions C01_leaf_tkhd_refuted.
 
-Theorem C01_trun_refuted : exists bs t, decode bs = Ok (t, []) /\ encode_w t = Panic.
+Theorem C01_trun_refuted : exists bs t, decode bs = Ok (t, []) /\ encode_w t = Err.
 Proof. exact trun_offset0_refuted. Qed.
 Print Assumptions C01_trun_refuted.
 
